@@ -151,7 +151,16 @@ Theorem C10_commuting_evolution_is_exact :
       infinite_sum (fun j => fst (et (Hf (map hterm_of H)) (0, - (INR k * dt))%R j (get (c0 rops) v) x)) (fst (get (c0 rops) w x)) /\
       infinite_sum (fun j => snd (et (Hf (map hterm_of H)) (0, - (INR k * dt))%R j (get (c0 rops) v) x)) (snd (get (c0 rops) w x)).
 Proof. exact commuting_evolve_exact. Qed.
-Print Assumptions C10_commuting_evolution_is_exact.
+Theorem C10_commuting_second_order_evolution_is_exact :
+  forall par n (Hhalf : list (eterm (T:=R))) (dt : R) (k : nat) v,
+  Hhalf <> [] -> Forall (term_ok n) Hhalf -> length v = N.to_nat (2 ^ n) -> Forall (true_values (dt / 2)%R) Hhalf ->
+  commuting_terms (map hterm_of Hhalf) ->
+  exists w, trotter_evolve rops par Second Hhalf k (mkState n v) = Ok (mkState n w) /\ length w = N.to_nat (2 ^ n) /\
+    forall x, x < 2 ^ n ->
+      infinite_sum (fun j => fst (et (Hf (map hterm_of Hhalf)) (0, - (INR k * dt))%R j (get (c0 rops) v) x)) (fst (get (c0 rops) w x)) /\
+      infinite_sum (fun j => snd (et (Hf (map hterm_of Hhalf)) (0, - (INR k * dt))%R j (get (c0 rops) v) x)) (snd (get (c0 rops) w x)).
+Proof. exact commuting_evolve_second_exact. Qed.
+Print Assumptions C10_commuting_evolution_is_exact. Print Assumptions C10_commuting_second_order_evolution_is_exact.
 (* what the notions mean *)
 Theorem C10_series_term_meaning :
   forall (A : (N -> C (T:=R)) -> N -> C (T:=R)) tau k f x,
